@@ -319,7 +319,10 @@ struct WkdRun {
             { bool from_flag = ((op.arg(0) >> 1) + (int64_t) b) % 3 == 0; if (from_flag) env.count("fault:adjust_from_list_carries_omit_all_switch");
               JAttrs jf(fromL2, from_flag), jt(to, false); if (jf.share_array_with(jt) || jt.share_array_with(jf)) env.count("fault:from_and_to_lists_are_views_of_one_array");
               bool self = inplace && b == 1 && kk.ndlist.empty(); if (self) env.count("fault:adjust_in_place_key_is_its_own_parent");
-              call_begin(1); R.jv_wk_adjust_nd(view, kk.sk, self ? kk.sk : keys[pi].sk, &jf.l, &jt.l); expect_no_draws("adjust_nondelegable"); }
+              // when the two lists are equal entry for entry, the caller may well hold ONE list object and pass it twice
+              bool same_obj = !from_flag && jf.a.size() == jt.a.size() && (jf.a.empty() || memcmp(jf.a.data(), jt.a.data(), jf.a.size() * sizeof(jv_attr)) == 0) && (((op.arg(0) >> 6) + (int64_t) b) & 1);
+              if (same_obj) env.count("fault:adjust_from_and_to_are_the_same_list_object");
+              call_begin(1); R.jv_wk_adjust_nd(view, kk.sk, self ? kk.sk : keys[pi].sk, &jf.l, same_obj ? &jf.l : &jt.l); expect_no_draws("adjust_nondelegable"); }
             std::vector<Slot> before = kk.pat; std::vector<MAttr> fromL = kk.ndlist;
             kk.pat = nxt; kk.ndlist = to;
             for (auto& a : fromL) if (a.id >= K().r) env.count("probe:adjust_from_id_ge_r");
